@@ -64,11 +64,13 @@ def check_ellipsoid(t, a, f, gm, w, cls, fexact=None):
     # the same body through the WGS class (the README's recipe for other planets): the same ellipsoid
     t.calls += 1
     ow = core.outcome(lambda: (lambda W: (float(W.b), float(W.first_eccentricity_squared), float(W.equatorial_normal_gravity), float(W.polar_normal_gravity),
-                                          float(W.normal_gravity(38.5, 0.001 * a))))(WGS(a=a, f=f, GM=gm, w=w)))
+                                          float(W.normal_gravity(38.5, 0.001 * a)), float(W.linear_eccentricity), float(W.normal_gravity_potential),
+                                          float(W.second_eccentricity_squared), float(W.normal_gravity_constant)))(WGS(a=a, f=f, GM=gm, w=w)))
     if ow[0] != "ok":
         t.fail("C16|WGS(a, f, GM, w)|raises-%s|%s" % (ow[1], cls), dict(case, err=ow[2]))
     else:
-        want_w = (float(E.b), float(E.first_eccentricity_squared), ge, gp, float(E.normal_gravity(38.5, 0.001 * a)))
+        want_w = (float(E.b), float(E.first_eccentricity_squared), ge, gp, float(E.normal_gravity(38.5, 0.001 * a)), float(E.linear_eccentricity),
+                  float(E.normal_gravity_potential), float(E.second_eccentricity_squared), float(E.normal_gravity_constant))
         if not all(abs(x - y) <= 1e-15 * max(abs(y), 1e-300) for x, y in zip(ow[1], want_w)):
             t.fail("C16|WGS(a, f, GM, w)|differs-from-ReferenceEllipsoid|%s" % cls, dict(case, wgs=ow[1], reference_ellipsoid=want_w))
     g0 = gm / (a * a)
@@ -185,6 +187,18 @@ def extras(seed, n):
             continue          # outside the property's quantifier (fast rotators)
         check_ellipsoid(t, a, f, gm, w, "planet-%s" % body.lower())        # w as shipped: Venus, Uranus and Pluto rotate backwards (w < 0)
     t.samples.append({"planets": "constants table", "flattenings_via_Fraction_mirror": ["1e-6", "1e-5", "1e-4", "1/298.257223563"]})
+    # other geodetic reference systems of the Earth and slightly adjusted WGS 84 parameters: within parts per million of the defaults
+    # (anything that recognises "the" WGS 84 ellipsoid with a tolerance takes these for it)
+    E_ = (K.EARTH_EQUATOR_RADIUS, K.EARTH_FLATTENING, K.EARTH_GM, K.EARTH_ROTATION)
+    for tag, (a_, f_, gm_, w_) in (("grs80", (6378137.0, 1.0 / 298.257222101, 3.986005e14, 7.292115e-5)),
+                                   ("wgs72", (6378135.0, 1.0 / 298.26, 3.986008e14, 7.292115147e-5)),
+                                   ("pz90", (6378136.0, 1.0 / 298.25784, 3.986004418e14, 7.292115e-5)),
+                                   ("iau76", (6378140.0, 1.0 / 298.257, 3.986005e14, 7.292115e-5)),
+                                   ("wgs84-GM+5ppm", (E_[0], E_[1], E_[2] * (1 + 5e-6), E_[3])),
+                                   ("wgs84-a+1ppm", (E_[0] * (1 + 1e-6), E_[1], E_[2], E_[3])),
+                                   ("wgs84-f+3ppm", (E_[0], E_[1] * (1 + 3e-6), E_[2], E_[3])),
+                                   ("wgs84-w+50ppm", (E_[0], E_[1], E_[2], E_[3] * (1 + 5e-5)))):
+        check_ellipsoid(t, a_, f_, gm_, w_, "near-earth-%s" % tag)
     # WGS defaults
     check_ellipsoid(t, K.EARTH_EQUATOR_RADIUS, K.EARTH_FLATTENING, K.EARTH_GM, K.EARTH_ROTATION, "wgs84")
     W = WGS()
